@@ -2,6 +2,8 @@ import Dtr.Proofs.Run
 import Dtr.Proofs.ScopeDiscipline
 import Dtr.Proofs.KeysOK
 import Dtr.Proofs.RunErr
+import Dtr.Proofs.Resume
+import Dtr.Proofs.AfterErrorBasic
 /-!
 # C01 — control flow and variables determine exactly which rows run, and in what order
 
@@ -258,6 +260,73 @@ def exProgErr : List Stmt :=
 example : ((errBlock exDev 20 exProgErr ⟨{ rng := default }, (), []⟩).map
     (fun p => (p.1, p.2.log.map (fun r => (r.entries, r.line))))) =
     some (.divZero, [([.num 6], 2)]) := by
+  decide
+
+/-! ### runs that are resumed: from any state of the iterator, and behind an evaluation error -/
+
+/-- **The refinement holds from every state of the iterator**, not only from the start of a program: whenever
+the sequential reading of what an iterator state has left to do (`execIt`, `Spec/BigStepResume`: the rest of
+the innermost active block, the rest of the current pass of the loop around it, the remaining counter values
+below its bound, what follows the loop, and so on outwards) runs from `σ` to `σ'`, the machine started in that
+state reaches its end in `σ'` — same rows, in order, same device state. -/
+theorem C01_resume_refines (fuel : Nat) (it : It) (σ σ' : Sys W) (h : execIt D fuel it σ = some σ') :
+    Steps D (it, σ) (.mk [] .iterate, σ') :=
+  resume_sound D fuel it σ σ' h
+
+/-- … and the caller who keeps calling `next_with_context` from that state sees exactly those rows, then `None` -/
+theorem C01_resume_next_yields_exactly (fuel : Nat) (it : It) (σ σ' : Sys W) (h : execIt D fuel it σ = some σ') :
+    ∃ f, runNext D f f it σ = some σ' := by
+  have hs := C01_resume_refines D fuel it σ σ' h
+  have hdone : runAll D 1 (.mk [] .iterate) σ' = some σ' := by
+    simp [runAll, step]
+  obtain ⟨f, hf⟩ := Steps_runAll D hs 1 σ' hdone
+  exact ⟨f, runAll_runNext D f _ σ σ' hf⟩
+
+/-- **Going on behind an evaluation error.**  When a turn of the iterator fails (`step it σ.ctx = .err e`), the
+state the code is left in (`stepPost`, `Model/AfterError`) has the variables and outputs of the moment of the
+failure, and from it the run continues as the sequential reading of that state prescribes: a caller who goes on
+calling `next` sees exactly those rows, in order, then `None`. -/
+theorem C01_continues_behind_error (fuel : Nat) (it : It) (σ σ' : Sys W)
+    (h : execIt D fuel (stepPost it σ.ctx).1 { σ with ctx := (stepPost it σ.ctx).2 } = some σ') :
+    (stepPost it σ.ctx).2.vars = σ.ctx.vars ∧ (stepPost it σ.ctx).2.outs = σ.ctx.outs ∧
+    Steps D ((stepPost it σ.ctx).1, { σ with ctx := (stepPost it σ.ctx).2 }) (.mk [] .iterate, σ') ∧
+    ∃ f, runNext D f f (stepPost it σ.ctx).1 { σ with ctx := (stepPost it σ.ctx).2 } = some σ' :=
+  ⟨(stepPost_fields it σ.ctx).1, (stepPost_fields it σ.ctx).2.2, C01_resume_refines D fuel _ _ σ' h,
+   C01_resume_next_yields_exactly D fuel _ _ σ' h⟩
+
+/-- **What that reading is, at the failing statement**: a `let`, data row or loop header that cannot be evaluated
+is skipped — the reading of the state behind it is the sequential reading of the statements that *follow* it in
+its block — and inside a loop the rest of the pass, the remaining passes and the rest of the program follow as
+usual (`execIt` of the enclosing states). -/
+theorem C01_failed_statement_reading (fuel : Nat) (s : Stmt) (rest : List Stmt) (c : Ctx) (e : ExprErr) (σ : Sys W)
+    (herr : step (.mk (s :: rest) .iterate) c = .err e) :
+    execIt D fuel (stepPost (.mk (s :: rest) .iterate) c).1 σ = execBlock D fuel rest σ := by
+  cases s with
+  | letS name ex => simp [stepPost, execIt, execState]
+  | row data line => simp [stepPost, execIt, execState]
+  | loop var max body => simp [stepPost, execIt, execState]
+  | resetRandom => simp [step] at herr
+  | «while» cond body => simp [step] at herr
+
+/-- the reading of an iterator inside a loop: its own, then the rest of the loop (`afterPass`: next counter value
+and test), then what follows the loop -/
+theorem C01_resume_inside_loop (fuel : Nat) (it : It) (ls : LoopState) (rest : List Stmt) (σ : Sys W) :
+    execIt D fuel (.mk rest (.inner it ls)) σ =
+      (execIt D fuel it σ).bind (fun σ2 => (afterPass D fuel ls σ2).bind (fun σ3 => execBlock D fuel rest σ3)) := by
+  simp only [execIt, execState]
+  cases execIt D fuel it σ with
+  | none => rfl
+  | some σ2 =>
+    simp only [Option.bind]
+    cases afterPass D fuel ls σ2 <;> rfl
+
+/-- Non-vacuity: resumed behind the division by zero of `exProgErr` (second pass of the loop), the run goes on
+with the third pass (6 / (1-2) = -6) and the row behind the loop. -/
+example : (((execIt exDev 20 (stepPost (.mk [] (.inner (.mk [.row [.expr (.bin .div (.num 6) (.bin .sub (.num 1) (.var "i")))] 2] .iterate)
+      ⟨"i", 3, [.row [.expr (.bin .div (.num 6) (.bin .sub (.num 1) (.var "i")))] 2], 1⟩))
+      ((({ rng := default } : Ctx).pushFrame.set "i" 1))).1
+    ⟨(({ rng := default } : Ctx).pushFrame.set "i" 1), (), []⟩).map (fun σ => σ.log.map (fun r => (r.entries, r.line))))) =
+    some [([.num (-6)], 2)] := by
   decide
 
 end Dtr
